@@ -40,6 +40,17 @@ EXTRA_TYPES = [
     "list[T]", "dict[str, T]", "Optional[T]", "Callable[[T], U]", "type[T]", "G[int]", "G[T]", "tuple[T, ...]",
     "Tuple[int, Unpack[Tuple[str, ...]]]", "Annotated[int, 1, \"m\"]", "Literal[1, \"a\", None, True]", "LiteralString", "Any",
     "Never", "NoReturn", "List", "Dict", "Type", "list", "type", "Sequence", "Mapping[str, Any]",
+    # the same constructs reached through other modules (identity vs name based recognition)
+    "collections.abc.Callable[[int], str]", "collections.abc.Callable[..., int]", "collections.abc.Callable[[T], U]",
+    "collections.abc.Callable[[], None]", "collections.abc.Callable", "typing.Callable[[int], str]", "typing.Callable",
+    "typing_extensions.Callable[[int], str]", "collections.abc.Sequence[int]", "collections.abc.Mapping[str, T]",
+    "collections.abc.Iterable[T]", "collections.abc.Awaitable[int]", "collections.abc.Iterator[str]",
+    "collections.abc.Generator[int, str, None]", "collections.abc.Set[int]", "collections.abc.MutableMapping[str, int]",
+    "typing.Optional[int]", "typing.Union[int, str]", "typing_extensions.Literal[1, 2]", "typing.Literal[\"a\"]",
+    "typing_extensions.Annotated[int, 1]", "typing.Annotated[str, \"m\"]", "typing.Tuple[int, ...]", "typing.Type[A]",
+    "typing_extensions.Never", "typing_extensions.LiteralString", "typing.Any", "typing_extensions.Unpack[Tuple[int, str]]",
+    "tuple[int, typing_extensions.Unpack[tuple[str, ...]]]", "typing.List[int]", "typing.Dict[str, int]",
+    "type[typing.Any]", "typing.Type[typing.Any]", "collections.abc.Callable[[int], collections.abc.Callable[[str], int]]",
 ]
 
 
@@ -68,7 +79,7 @@ def same_value(a, b):
     return str(norm(a)) == str(norm(b))
 
 
-HEADER = "from typing import *\nfrom typing_extensions import *\nfrom pv_vocab import *\n"
+HEADER = "import collections.abc, typing, typing_extensions\nfrom typing import *\nfrom typing_extensions import *\nfrom pv_vocab import *\n"
 
 
 def param_values(src, names):
